@@ -182,6 +182,24 @@ func (c *runCtx) restoreFile(r *c19Repo, rel string) {
 	os.WriteFile(filepath.Join(r.root, rel), r.files[rel], 0o666)
 }
 
+func copyTree(src, dst string) {
+	filepath.Walk(src, func(p string, fi os.FileInfo, err error) error {
+		if err != nil {
+			return nil
+		}
+		rel, _ := filepath.Rel(src, p)
+		t := filepath.Join(dst, rel)
+		if fi.IsDir() {
+			os.MkdirAll(t, 0o777)
+		} else if fi.Mode().IsRegular() {
+			if b, err := os.ReadFile(p); err == nil {
+				os.WriteFile(t, b, 0o666)
+			}
+		}
+		return nil
+	})
+}
+
 func hexClip(b []byte) string {
 	if len(b) > 48 {
 		return hex.EncodeToString(b[:48]) + "…"
@@ -447,11 +465,14 @@ func monC19(c *runCtx) {
 		})
 	}
 	// ---- CLI level: commands on mutated repositories must not crash
-	cliFiles := []string{"index", "HEAD", filepath.Join("refs", "heads", "feature"), "config", filepath.Join("logs", "HEAD")}
+	cliFiles := []string{"index", "HEAD", filepath.Join("refs", "heads", "feature"), filepath.Join("refs", "heads", "main"), filepath.Join("refs", "heads", "main"), "config", filepath.Join("logs", "HEAD"), filepath.Join("logs", "refs", "heads", "main")}
 	for _, id := range r.objects {
 		cliFiles = append(cliFiles, filepath.Join("objects", id[:2], id[2:]))
 	}
 	cmds := [][]string{{"status"}, {"ls-files", "-s"}, {"log"}, {"reflog"}, {"rev-parse", "HEAD"}, {"cat-file", "-p", r.objects[0]}, {"cat-file", "-t", r.objects[len(r.objects)-1]}, {"branch", "--list"}, {"write-tree"}}
+	// modifying commands run on a throw-away copy of the (damaged) repository
+	modCmds := [][]string{{"branch", "-d", "main"}, {"switch", "main"}, {"add", "a.txt"}, {"rm", "a.txt"}, {"commit", "-m", "x"}, {"reset", "--soft", "HEAD@{1}"}, {"reset", "--hard", "HEAD@{0}"},
+		{"restore", "a.txt"}, {"restore", "--staged", "a.txt"}, {"config", "user.name", "x"}, {"branch", "newb"}, {"branch", "-r", "ren"}, {"switch", "-c", "cnew"}, {"update-ref", "refs/heads/main", r.objects[0]}}
 	ncli := c.pick(2400, 12000) / c.of
 	for i := 0; i < ncli; i++ {
 		rel := cliFiles[c.rng.IntN(len(cliFiles))]
@@ -491,8 +512,15 @@ func monC19(c *runCtx) {
 		}
 		os.WriteFile(filepath.Join(r.root, rel), data, 0o666)
 		cmd := cmds[c.rng.IntN(len(cmds))]
+		runDir := r.w
+		if c.rng.IntN(3) == 0 {
+			cmd = modCmds[c.rng.IntN(len(modCmds))]
+			runDir = filepath.Join(c.work, "clicopy")
+			os.RemoveAll(runDir)
+			copyTree(r.w, runDir)
+		}
 		c.note("C19 cli %v with %s %s = %s", cmd, mk, rel, hexClip(data))
-		out, code := c.goitRun(r.w, cmd...)
+		out, code := c.goitRun(runDir, cmd...)
 		c.res.Evals++
 		c.oracle("C19.cli")
 		fileClass := rel
